@@ -119,6 +119,56 @@ def run_shard(mod, ctx, mon):
             pass
 
 
+def shrink(mod, pid, witness, ctx, budget_s=20.0):
+    """Greedy delta-debugging of a violating history: drop events (then halve multiplicities) while the same clause still
+    fires on replay.  Bounded by time; the original witness is kept when nothing smaller reproduces."""
+    case = witness.get("case")
+    if not isinstance(case, dict) or not isinstance(case.get("events"), list) or not hasattr(mod, "replay"):
+        return witness
+    t0 = time.time()
+
+    def fires(c):
+        mon = Monitor(pid, ctx)
+        try:
+            mon.begin_case(c)
+            mod.replay(c, ctx, mon)
+        except (CaseAbort, StopRun):
+            pass
+        except Exception:  # noqa: BLE001
+            return False
+        return any(w["clause"] == witness["clause"] for w in mon.violations)
+
+    try:
+        if not fires(case):
+            return witness
+        cur = dict(case)
+        n = len(cur["events"])
+        chunk = max(1, n // 2)
+        while chunk >= 1 and time.time() - t0 < budget_s:
+            i = 0
+            while i < len(cur["events"]) and time.time() - t0 < budget_s:
+                trial = dict(cur, events=cur["events"][:i] + cur["events"][i + chunk:])
+                if trial["events"] and fires(trial):
+                    cur = trial
+                else:
+                    i += chunk
+            chunk //= 2
+        if len(cur["events"]) < n:
+            mon = Monitor(pid, ctx)
+            try:
+                mon.begin_case(cur)
+                mod.replay(cur, ctx, mon)
+            except (CaseAbort, StopRun):
+                pass
+            for w in mon.violations:
+                if w["clause"] == witness["clause"]:
+                    w = dict(w, shrunk_from_events=n, tier=witness.get("tier"), seed=witness.get("seed"), shard=witness.get("shard"))
+                    return w
+    except Exception:  # noqa: BLE001
+        pass
+    return witness
+
+
 def write_replay(pid, witness):
     d = os.environ.get("VERIF_REPLAY_DIR") or os.path.join(common.VERIF_HOME, "replay")
     os.makedirs(d, exist_ok=True)
@@ -314,7 +364,9 @@ def main(argv=None):
         print(f"  observed: {top}")
     if mon.violations:
         seen = set()
-        for w in mon.violations:
+        for n_w, w in enumerate(mon.violations):
+            if os.environ.get("VERIF_SHRINK", "1") == "1":
+                w = shrink(mod, pid, w, ctx)
             path = write_replay(pid, w)
             if path in seen:
                 continue
